@@ -52,6 +52,9 @@ def run(ctx: Ctx):
               ' after the end marker otherwise gets the RETRIABLE "Generator is not set" timeout and the client restarts a'
               ' finished stream', c15.r18, min_instances=4)
   from mlmverif.props import c17 as _c17
+  ctx.include('R-C14-26', '"calls on a remote object behave like on the local object": a recorded call keeps its arguments in the'
+              ' caller\'s order — LazyFn.new neither sorts nor de-duplicates args / kwargs (R-C17-2): keyword order is'
+              ' observable by the callee (**kwargs, dict(...))', _c17.r2, min_instances=6)
   ctx.include('R-C14-24', '"returns the same value ... as evaluating it locally": the server makes every argument through the maker'
               ' registry, which must recognise a class that reached it pickled by value — the registry is keyed by'
               ' repr(type) on both sides (R-C17-15)', _c17.r15, min_instances=2)
@@ -1080,6 +1083,8 @@ from mlmverif.selfcheck import B, OK  # noqa: E402
 _S = 'chainables/courier_server.py'
 _U = 'utils/courier_utils.py'
 VARIANTS = [
+    B('recorded-kwargs-sorted-by-name', 'chainables/lazy_fns.py',
+      "        kwargs=tuple((kwargs or {}).items()),", "        kwargs=tuple(sorted((kwargs or {}).items(), key=lambda kv: kv[0])),", 'R-C14-26'),
     OK('remote-call-through-a-local-lazy', 'utils/courier_utils.py',
        '    """Calling a LazyFn records a lazy result of the call."""\n', '    """Calling a LazyFn records a lazy result of the call."""\n    n_args = len(args) + len(kwargs)\n    del n_args\n'),
     B('remote-arguments-by-reference', 'utils/courier_utils.py',
